@@ -5,7 +5,7 @@
 From Coq Require Import Reals List Lra.
 From Cyecca Require Import Base.Ops Spec.Mat Spec.Rot Spec.Semidirect
   Gen.SO2 Gen.SE2 Gen.Rn Gen.SO3Quat Gen.SO3Mrp Gen.SO3Dcm Gen.SO3Euler Gen.SE3Quat Gen.SE3Mrp Gen.SE23Quat Gen.SE23Mrp
-  Proofs.C01_planar Proofs.C01_SO3Quat Proofs.C01_SO3Mrp Proofs.C01_SO3Dcm Proofs.C01_DcmClosure Proofs.C01_SO3Euler Proofs.C01_SE3 Proofs.Shepperd Proofs.Conv.
+  Proofs.C01_planar Proofs.C01_SO3Quat Proofs.C01_SO3Mrp Proofs.C01_SO3Dcm Proofs.C01_DcmClosure Proofs.C01_SO3Euler Proofs.C01_SO3EulerClosure Proofs.C01_SE3 Proofs.Shepperd Proofs.Conv.
 Import ListNotations.
 Local Open Scope R_scope.
 
@@ -94,6 +94,15 @@ Proof. exact euler_product_through_matrices. Qed.
 Theorem C01_SO3Euler_inverse_through_matrices : forall a, length a = 3%nat ->
   SO3Euler_inverse_v a = SO3Euler_from_Matrix_v (mtrans 3 3 (SO3Euler_to_Matrix_v a)).
 Proof. exact euler_inverse_through_matrices. Qed.
+(* ... and those matrices are proper rotations for all angle triples (closure under product and transpose) *)
+Theorem C01_proper_rotation_product_closed : forall a b, proper_rotation a -> proper_rotation b -> proper_rotation (mmul 3 3 3 a b).
+Proof. exact mmul_proper. Qed.
+Theorem C01_SO3Euler_product_matrix_is_rotation : forall a b, length a = 3%nat -> length b = 3%nat ->
+  proper_rotation (mmul 3 3 3 (SO3Euler_to_Matrix_v a) (SO3Euler_to_Matrix_v b)).
+Proof. exact euler_product_matrix_proper. Qed.
+Theorem C01_SO3Euler_inverse_matrix_is_rotation : forall a, length a = 3%nat ->
+  proper_rotation (mtrans 3 3 (SO3Euler_to_Matrix_v a)).
+Proof. exact euler_inverse_matrix_proper. Qed.
 
 
 (* ---- SE(3), SE_2(3): every SO(3) parameterisation plugged in (generic semidirect theorem) ---- *)
@@ -178,6 +187,9 @@ Print Assumptions C01_SO3Dcm_from_Matrix.
 Print Assumptions C01_SO3Euler_identity_matrix.
 Print Assumptions C01_SO3Euler_product_through_matrices.
 Print Assumptions C01_SO3Euler_inverse_through_matrices.
+Print Assumptions C01_proper_rotation_product_closed.
+Print Assumptions C01_SO3Euler_product_matrix_is_rotation.
+Print Assumptions C01_SO3Euler_inverse_matrix_is_rotation.
 Print Assumptions C01_semidirect_SE3_generic.
 Print Assumptions C01_semidirect_SE23_generic.
 Print Assumptions C01_SE3Quat_hom.
